@@ -217,6 +217,10 @@ func (r *EngineRunner) execLock(f []string) string {
 			o.BytesPerSync = 16*1024*1024 + 1
 		case "thresh0":
 			o.SyncStrategy, o.BytesPerSync = kv.Threshold, 0
+		case "index0":
+			o.IndexType = 0 // the zero value of a hand-built Options: not one of the three index types
+		case "index9":
+			o.IndexType = 9
 		}
 		before := r.lockSnapshot()
 		_, statErr := os.Stat(r.dir())
